@@ -1,0 +1,18 @@
+//go:build verif
+
+package yamlpc
+
+// Contract file: comments only, parsed by /verif/cmd/govc (see /verif/DESIGN.md §2.2).
+
+//@ func YAMLConsumer$1
+//@ watch ND = call gopkg.in/yaml.v3.NewDecoder
+//@ watch DE = call (*gopkg.in/yaml.v3.Decoder).Decode
+//@ assume after ND ret(ND,0,0) != nil
+//@ ensures [C15:yaml] calls(ND) == 1 && arg(ND,0,0) == r && calls(DE) == 1 && arg(DE,0,0) == ret(ND,0,0) && arg(DE,0,1) == v && result == ret(DE,0,0)
+
+//@ func YAMLProducer$1
+//@ watch NE = call gopkg.in/yaml.v3.NewEncoder
+//@ watch EN = call (*gopkg.in/yaml.v3.Encoder).Encode
+//@ watch CL = call (*gopkg.in/yaml.v3.Encoder).Close
+//@ assume after NE ret(NE,0,0) != nil
+//@ ensures [C15:yaml] calls(NE) == 1 && arg(NE,0,0) == w && calls(EN) == 1 && arg(EN,0,0) == ret(NE,0,0) && arg(EN,0,1) == v && result == ret(EN,0,0) && calls(CL) == 1 && arg(CL,0,0) == ret(NE,0,0) && time(EN,0) < time(CL,0)
